@@ -250,9 +250,9 @@ def audit(ctx, props_modules, extra_theorem_files=()):
     rc, out = ctx.lean_eval(props_modules, body)
     # parse:  'T' depends on axioms: [a, b]   |   'T' does not depend on any axioms
     seen = {}
-    for m in re.finditer(r"'([^']+)' depends on axioms: \[([^\]]*)\]", out, re.S):
+    for m in re.finditer(r"'(\S+)' depends on axioms: \[([^\]]*)\]", out, re.S):
         seen[m.group(1)] = [a.strip() for a in m.group(2).replace("\n", " ").split(",") if a.strip()]
-    for m in re.finditer(r"'([^']+)' does not depend on any axioms", out):
+    for m in re.finditer(r"'(\S+)' does not depend on any axioms", out):
         seen[m.group(1)] = []
     ok = 0
     for t in thms:
